@@ -448,6 +448,8 @@ def dump_rich(d: "PassDumper", name: str, fn, labels: dict) -> None:
                 elif isinstance(op, O.RaiseStandardError) and op.class_name == O.RaiseStandardError.UNBOUND_LOCAL_ERROR:
                     tag = "raise_unbound"
                 elif isinstance(op, O.LoadAddress):
+                    if isinstance(op.src, O.Register):
+                        tag = "loadaddr"      # the register is written through the pointer: outside the model
                     srcs = []
                 dest = op.dest if isinstance(op, O.AssignMulti) else op
                 w(f"O {d.vid(dest)} {d.sym(describe(op))} {tag} " + " ".join(operand(x) for x in srcs) + "\n")
